@@ -354,7 +354,30 @@ def rule_loader_checks(ctx, rep, rid):
             rep.ob(rid, FILESTATE_LOAD, 'first-index-is-0', False, lb.where(bb),
                    'the index of the first entry is not tested (apply always writes 0 first): a journal whose first entries were removed loads as if it were the whole history')
     if cont is not None and first_zero:
-        rep.ob(rid, FILESTATE_LOAD, 'first-index-is-0', True, lb.where(cont[0]), 'expected index = 0 for the first entry, previous + 1 afterwards')
+        # which arm yields which: 0 where the entry counter is 0, previous + 1 elsewhere
+        arm_ok = False
+        for sb, st_, se in switch_exprs(lb):
+            if st_.get('ty') != 'bool' or se[0] != 'bin' or se[1] not in ('Eq', 'Ne') or not (is_const(se[3], 0) or is_const(se[2], 0)):
+                continue
+            tt_, tf_ = bool_targets(st_)
+            zero_edge, other_edge = (tt_, tf_) if se[1] == 'Eq' else (tf_, tt_)
+            if zero_edge is None or other_edge is None:
+                continue
+            def assigns(blk, pred_, only=None):
+                for si_, s_ in enumerate(lb.stmts(blk)):
+                    rv_ = s_.get('rv')
+                    if rv_ and s_.get('lhs') is not None and len(s_['lhs']) == 1 and (only is None or s_['lhs'][0] == only) and pred_(lb._pexpr_rvalue(rv_, 0, frozenset(), (blk, si_))):
+                        return s_['lhs'][0]
+                return None
+            z = assigns(zero_edge, lambda e_: is_const(e_, 0))
+            if z is None:
+                continue
+            for blk in lb.reachable(other_edge, avoid_blocks={cont[0], zero_edge}):
+                if assigns(blk, lambda e_: is_plus_one(e_) is not None, only=z) is not None:
+                    arm_ok = True
+                    break
+        rep.ob(rid, FILESTATE_LOAD, 'first-index-is-0', arm_ok, lb.where(cont[0]), 'expected index = 0 for the first entry (counter == 0), previous + 1 afterwards' if arm_ok else
+               'the expected index is no longer 0 exactly where the entry counter is 0 and previous + 1 elsewhere: a valid journal is refused, or one whose head was removed is accepted')
     # nothing interprets the content of an entry before its checksum was found equal
     interp = [c for c in lb.calls if is_user_call(c) and (c.name.endswith('EntryCommand as iggy::bytes_serializable::BytesSerializable>::from_bytes') or c.name.endswith('EntryCommand::from_bytes')
                                                           or c.name.endswith('StateEntry::new') or (c.name.endswith('>::fmt') and 'StateEntry' in c.name))]
